@@ -29,7 +29,7 @@ META = {
              "corpus file x variant x 1-3 random flags x mode x placement x feeding method. Distinct by (hash of input, "
              "argument list, tree). Non-trivial: the expected stdout differs from the input (formatting cases), or the "
              "input is rejected and non-empty (error cases), or the path is ignored and formatting WOULD change the text "
-             "(pass-through cases) -- i.e. passing input through / formatting anyway / printing nothing would be noticed."),
+             "(pass-through cases) -- i.e. passing input through / formatting anyway / printing nothing would be noticed. Also pinned: an ignore file above the working directory (not consulted without -s), pass-through and range runs whose last line is 1023 ... 70000 bytes long and unterminated."),
     "assumptions": [
         "`sv libfmt` (stylua_lib from the same tree, Config built from Rust enum values, not via clap/serde) is 'the library's formatted output'",
         "expected configuration = defaults, overlaid by the nearest stylua.toml/.stylua.toml between the --stdin-filepath directory (or cwd) and cwd (or --config-path, or XDG with -s), overlaid by CLI flags; only placements on which the documentation is explicit are generated",
